@@ -4,7 +4,9 @@
 REPO=${1:-/repo}
 export GOFLAGS=-mod=mod GOPROXY=off GOSUMDB=off GOTOOLCHAIN=local GOWORK=off
 cd "$REPO" || exit 2
-go test -json -vet=off -count=1 -timeout 25m ./... 2>/dev/null > /tmp/obiverif-baseline.$$.json
+# three runs, as the harness does: a test counts as passing when it passes in a run
+# (pkg/obiutils TestSetString prints a map-backed set and fails now and then on the untouched tree)
+for i in 1 2 3; do go test -json -vet=off -count=1 -timeout 25m ./... 2>/dev/null; done > /tmp/obiverif-baseline.$$.json
 python3 - /tmp/obiverif-baseline.$$.json <<'PY'
 import json,sys
 res={}
@@ -12,7 +14,8 @@ for l in open(sys.argv[1]):
     try: e=json.loads(l)
     except: continue
     if e.get('Test') and e.get('Action') in('pass','fail'):
-        res[e['Package']+'::'+e['Test']]=e['Action']
+        k=e['Package']+'::'+e['Test']
+        if res.get(k)!='pass': res[k]=e['Action']
 base=json.load(open('/root/.vp/BASELINE.json'))['stable_pass']
 bad=[t for t in base if res.get(t)!='pass']
 print("baseline stable tests: %d, passing now: %d"%(len(base),len(base)-len(bad)))
